@@ -110,3 +110,59 @@ def fill(claim, na):
           "contenders), per-connection timeout armed, winner cancels losers, summary fires once. NOT decided: byte-level races "
           "between live connections.",
           "T1, T2", "DESIGN.md 4/C07")
+    claim("C10",
+          "attribute write-discipline (monotone counter, FIFO retransmit/unsent queues), CFG ordering / guard rules, three-ordering evaluation of the old-record predicate",
+          "Decides the exactly-once/in-order lemmas of the L3/L4 layer: seqnum counter used-then-incremented, numbered records built only in "
+          "build_record; append to the retransmit queue before any send; queue retired only by acks with seqnum<=acked; new connection "
+          "refills unsent from the retransmit queue before registering/resuming, unsent before producers, loss clears unsent; every "
+          "numbered record acked, old ones dropped after the ack, handlers after the watermark update; old <=> seqnum<=watermark, "
+          "watermark monotone; only un-numbered records bypass the queue; parked records replayed FIFO. NOT decided: TCP order, trace equality.",
+          "T1, T2", "DESIGN.md 4/C10")
+    claim("C11",
+          "three-ordering evaluation of choose_role, Automat table rules (selection once, stop-before-start, reconnect rows and output order), CFG guard rules for KCM, write-discipline",
+          "Decides ONLY the structural clauses: complementary roles from the same side pair (equal raises); one selection per Connector "
+          "generation and never two racing Connectors; KCM only from the follower after the handshake and from the leader at selection; "
+          "reconnect handshake rows present with `reconnecting` announced before connecting starts; dilation generations and dilate-N "
+          "sequenced; loss of the selected connection reported through the one-shot observer. The convergence-without-deadlock clause "
+          "for two live peers over a network is NOT decided (no sound static argument in reach).",
+          "T1; the behavioural half (re-convergence liveness) is explicitly unclaimed", "DESIGN.md 4/C11")
+    claim("C12",
+          "encoder/decoder layout extraction and agreement (sibling cross-check), constant evaluation, loop-shape rule for chunking, CFG handler rules, role table, Automat who-emits rule",
+          "Decides: all 7 record types written and read at the same tag/offset/width/encoding (ping ids 4 bytes at every producer), "
+          "same struct format; NOISE_MAX_CIPHERTEXT-NOISE_MAX_PAYLOAD==16 with sender partitioning by payload and receiver by "
+          "ciphertext and matching thresholds; frame length prefix agreement; every Noise read/decrypt failure becomes Disconnect -> "
+          "loseConnection; prologue divergence (and only divergence) disconnects; role table of build_protocol; records reach the "
+          "manager only in state selected and only from the decrypting unframer. NOT decided: Noise itself (not installed here).",
+          "T1, T2", "DESIGN.md 4/C12")
+    claim("C13",
+          "Automat table path rules (exactly-once signals on every path to closed), write-discipline, argument plumbing across 4 call hops, CFG handler rules, who-may-write table",
+          "Decides: on every path to `closed` exactly one connectionLost (or one read-lost and one write-lost), one close_subchannel, one "
+          "CLOSE; nothing delivered in closed; a write after the local close raises and is never silently dropped; id parity per role and "
+          "step 2; expected_subprotocols plumbed dilate()->Boss->Dilator->Manager->demultiplexer which tests it; unexpected OPEN answered "
+          "with CLOSE and forgotten, duplicate OPEN ignored, pending OPENs drained in order; _open_subchannels written only by open / "
+          "refusal / subchannel_closed. NOT decided: data ordering relative to close (C10).",
+          "T1", "DESIGN.md 4/C13")
+    claim("C15",
+          "paired-move write discipline + CFG ordering/guard rules on the flow-control entry points",
+          "Decides ONLY the pairing discipline the behaviour depends on: producer sets move together and every move is immediately "
+          "followed by the matching pause/resume call; a producer registered while paused is paused exactly once; pause sets the flag "
+          "first and visits all; resume loops on the flag, unsent records first, producers through the rotating accessor; connection "
+          "loss pauses; Inbound pauses exactly on empty->non-empty, resumes exactly on non-empty->empty, updates its set with or "
+          "without a connection and pauses a new connection while non-empty. Absence of lost wake-ups over all interleavings is NOT decided.",
+          "T1; the interleaving half is explicitly unclaimed", "DESIGN.md 4/C15")
+    claim("C16",
+          "Automat table path rule (interval-only paths) + CFG must-pass/guard rules on the timer glue + write-discipline of Manager._timer",
+          "Decides: exactly two silent intervals from `connected` reach signal_reconnect, each re-arming; traffic returns to connected from "
+          "both timing states; loss accepted in both; the leader reports every connection and every loss to the timer; the interval timer "
+          "is cancelled+cleared when the connection goes and cleared by its own expiry before reporting (non-None => pending); the "
+          "reconnect signal drops the connection; only a matching pong reports traffic; pings carry fresh 4-byte ids. NOT decided: seconds.",
+          "T1, T2 (Twisted DelayedCall)", "DESIGN.md 4/C16")
+    claim("C17",
+          "Automat exhaustiveness/outcome rules on Manager/Connector/Terminator + CFG must-pass rules + resource-registration (who-tracks-what) rule",
+          "Decides: every non-final Manager state accepts stop and either stops at once (notifying) or waits in STOPPING with a disconnect "
+          "requested, STOPPING leaves on both loss inputs; a racing Connector is stopped and Connector.stop closes listeners, pending "
+          "connectors and pending connections; Dilator.stop always leads to stoppedD; no common version => OldPeerCannotDilateError on "
+          "the main channel that connect()/listen() await, early versions forwarded; every protocol built for a Connector (outbound and "
+          "inbound) is tracked in the set that stop/selection disconnect; the stop path cannot raise on a stale timer. NOT decided: that "
+          "the transport eventually reports the loss.",
+          "T1, T2", "DESIGN.md 4/C17")
